@@ -38,12 +38,14 @@ func knownClass(class string) bool { return !replaying && rec.KnownClass(class) 
 // ---------------------------------------------------------------------------
 // JSON: random cases
 
-var jsonPayloads = []string{"#", "x", "}", "]", ",", ":", "\"", "é", "漢", "😀", "\x01", "'", "tru", "nul ", "-", "0123", "\x7f", "Ａ"}
-var inStringPayloads = []string{"\n", "\r", "\r\n", "\x01", "\t", "\x1f"}
+var jsonPayloads = []string{"#", "x", "}", "]", ",", ":", "\"", "é", "漢", "😀", "\x01", "'", "tru", "nul ", "-", "0123", "\x7f", "Ａ",
+	"\xff", "\x80", "\xe3\x81", "\xc3#"} // ill-formed UTF-8 as the offending byte
+var inStringPayloads = []string{"\n", "\r", "\r\n", "\x01", "\t", "\x1f",
+	"\xc3\x01", "\xe3\x81\x1f", "\xff\n", "\x80\x01", "\xffx\x01"} // ill-formed bytes directly (or one character) before the control character
 
 func genDocSpec(t *rapid.T, label, size string) docSpec {
 	d := docSpec{Seed: rapid.Uint64Range(0, 1<<40).Draw(t, label+"seed")}
-	d.Chars = rapid.SampledFrom([]string{"ascii", "ascii", "ascii", "latin", "cjk", "cjk", "emoji", "mix", "mix"}).Draw(t, label+"chars")
+	d.Chars = rapid.SampledFrom([]string{"ascii", "ascii", "ascii", "latin", "cjk", "cjk", "emoji", "mix", "mix", "bad"}).Draw(t, label+"chars")
 	d.Indent = rapid.SampledFrom([]string{"  ", "  ", "  ", "", "    ", "\t"}).Draw(t, label+"indent")
 	d.Shape = rapid.SampledFrom([]string{"obj", "obj", "arr", "nest", "nest", "scalars"}).Draw(t, label+"shape")
 	switch size {
@@ -92,7 +94,7 @@ func genFault(t *rapid.T, doc []byte) fault {
 		if rapid.Bool().Draw(t, "after") {
 			at = tok[1]
 		}
-		return fault{Kind: "insert", At: at, Text: rapid.SampledFrom(jsonPayloads).Draw(t, "payload")}
+		return textFault("insert", at, 0, rapid.SampledFrom(jsonPayloads).Draw(t, "payload"))
 	case "truncate":
 		if rapid.Bool().Draw(t, "anybyte") {
 			return fault{Kind: "truncate", At: rapid.IntRange(1, len(doc)).Draw(t, "cut")}
@@ -105,7 +107,7 @@ func genFault(t *rapid.T, doc []byte) fault {
 		}
 		return fault{Kind: "delete", At: at, N: 1}
 	case "replace":
-		return fault{Kind: "replace", At: tok[0], N: 1, Text: rapid.SampledFrom(jsonPayloads).Draw(t, "payload")}
+		return textFault("replace", tok[0], 1, rapid.SampledFrom(jsonPayloads).Draw(t, "payload"))
 	default: // a raw control character inside a string literal
 		for i := 0; i < 8 && (doc[tok[0]] != '"' || tok[1]-tok[0] < 3); i++ {
 			tok = toks[rapid.IntRange(0, len(toks)-1).Draw(t, "strtok")]
@@ -117,7 +119,7 @@ func genFault(t *rapid.T, doc []byte) fault {
 		for at > tok[0]+1 && doc[at]&0xC0 == 0x80 {
 			at--
 		}
-		return fault{Kind: "insert", At: at, Text: rapid.SampledFrom(inStringPayloads).Draw(t, "ctl")}
+		return textFault("insert", at, 0, rapid.SampledFrom(inStringPayloads).Draw(t, "ctl"))
 	}
 }
 
@@ -216,7 +218,7 @@ func smallFaults(doc []byte) [][]byte {
 				continue
 			}
 			seen[at] = true
-			for _, p := range []string{"#", "}", "é", "漢", "\x01", ",", "\""} {
+			for _, p := range []string{"#", "}", "é", "漢", "\x01", ",", "\"", "\xff", "\xe3\x81"} {
 				out = append(out, append(append(append([]byte{}, doc[:at]...), p...), doc[at:]...))
 			}
 		}
@@ -418,7 +420,15 @@ func genQueryCase(t *rapid.T, modes []string) queryCase {
 	switch rapid.SampledFrom([]string{"illegal", "illegal", "illegal", "misplaced", "misplaced", "truncate", "truncate", "delete", "escape", "interp", "illformed"}).Draw(t, "qfault") {
 	case "illformed":
 		at := bounds[biasedIndex(t, "bound", len(bounds))]
-		c = insertIllFormed(src, at, rapid.SampledFrom(illFormed).Draw(t, "bytes"))
+		seq := rapid.SampledFrom(illFormed).Draw(t, "bytes")
+		switch rapid.IntRange(0, 5).Draw(t, "shape") {
+		case 0: // the sequence ends its line
+			c = queryCase{Src: src[:at] + " " + seq + rapid.SampledFrom([]string{"\n", "\r\n", "\r"}).Draw(t, "nl") + src[at:], ExpStart: at + 1, ExpToken: seq[:1]}
+		case 1: // the sequence stands in a string directly before an invalid escape
+			c = queryCase{Src: src[:at] + " \"ab" + seq + "\\qcd\" " + src[at:], ExpStart: at + 4 + len(seq), ExpToken: "\\q"}
+		default:
+			c = insertIllFormed(src, at, seq)
+		}
 	case "illegal":
 		at := bounds[biasedIndex(t, "bound", len(bounds))]
 		c = insertLexeme(src, at, rapid.SampledFrom(illegalLexemes).Draw(t, "lexeme"))
@@ -700,7 +710,7 @@ func TestC17(t *testing.T) {
 			}
 		}
 	}
-	rec.Exhaustive("yaml: 18 fault kinds x 3 positions x 2 key forms x 2 alphabets x 0/2 preceding documents x LF/CRLF/CR x pipe/file/stdin-file", complete)
+	rec.Exhaustive("yaml: 19 fault kinds x 3 positions x 2 key forms x 2 alphabets x 0/2 preceding documents x LF/CRLF/CR x pipe/file/stdin-file", complete)
 
 	rec.Rapid(t, "yaml", rec.Scale(3200, 50000), func(t *rapid.T) {
 		c := yamlCase{
@@ -727,6 +737,9 @@ func TestC17(t *testing.T) {
 		c.Fault.Entry = biasedIndex(t, "entry", c.Entries+1)
 		if rapid.IntRange(0, 3).Draw(t, "mbkey") == 0 {
 			c.Fault.Key = rapid.SampledFrom([]string{`"キー"`, `"é"`, `"😀 k"`, "plain key"}).Draw(t, "key")
+		}
+		if c.Fault.Kind == "invalid-utf8" {
+			c.Fault.At = rapid.IntRange(0, len(yamlBadBytes)-1).Draw(t, "badbytes")
 		}
 		if c.Fault.Kind == "insert" || c.Fault.Kind == "truncate" {
 			c.Fault.At = rapid.IntRange(0, c.Entries*(c.Width+12)).Draw(t, "at")
@@ -798,7 +811,7 @@ func TestC17(t *testing.T) {
 	complete = true
 	for pi, prefix := range illPrefixes {
 		for _, seq := range illFormed {
-			for si, suffix := range []string{" | .b", " .b\n| .c", " | \"後\" # 終\r\n| .d"} {
+			for si, suffix := range []string{" | .b", " .b\n| .c", " | \"後\" # 終\r\n| .d", " \n| .c", "", "\n| .c", "\r\n| .c"} {
 				for _, mode := range []string{"lib", "arg", "file"} {
 					idx++
 					if !rec.Mine(idx) || tooMany() {
@@ -814,7 +827,28 @@ func TestC17(t *testing.T) {
 			}
 		}
 	}
-	rec.Exhaustive("query: 12 ill-formed UTF-8 sequences where a token is expected x 12 contexts x 3 continuations x library / <arg> / -f", complete)
+	// ill-formed bytes inside a string literal directly (or one character)
+	// before an invalid escape sequence
+	for pi, prefix := range illPrefixes {
+		for bi, bad := range []string{"\xc3", "\xe3\x81", "\xff", "\x80", "é\x80", "\xc3x", "\xff é", ""} {
+			for _, esc := range [][2]string{{`\q`, `\q`}, {`\x41`, `\x`}} {
+				for _, mode := range []string{"lib", "arg", "file"} {
+					idx++
+					if !rec.Mine(idx) || tooMany() {
+						continue
+					}
+					lit := "\"ab" + bad
+					c := queryCase{Mode: mode, Src: prefix + lit + esc[0] + "cd\" | .b", ExpStart: len(prefix) + len(lit), ExpToken: esc[1]}
+					rec.Eval()
+					if m := judgeQuery(c, noteQuery(fmt.Sprintf("qadj/%d/%d/%s/%s", pi, bi, esc[0], mode), c)); m != "" {
+						complete = false
+						rec.Direct("query-illformed", c.portable(), "%s", m)
+					}
+				}
+			}
+		}
+	}
+	rec.Exhaustive("query: 12 ill-formed UTF-8 sequences where a token is expected x 12 contexts x 7 continuations, and 8 ill-formed / valid tails of a string before an invalid escape x 12 contexts x library / <arg> / -f", complete)
 
 	rec.Rapid(t, "query-lib", rec.Scale(36000, 1500000), func(t *rapid.T) {
 		c := genQueryCase(t, []string{"lib"})
